@@ -123,6 +123,11 @@ def run_shard(desc, ctx):
             if idx % ns == sh:
                 run_case({'kind': 'json_array', 'dtype': dt, 'rank': rank, 'layout': lay, 'length': length,
                           'seed': [desc['seed'], idx]}, ctx, d)
+        if sh < 4:           # size: arrays far beyond any small-array threshold, long lists, deep nesting
+            rngb = np.random.default_rng([desc['seed'], sh, 1818])
+            big = {'big': (rngb.normal(size=(100000 // (sh + 1), sh + 1)) * 1e3).astype(['float64', 'float32', 'int32', 'uint16'][sh]),
+                   7: list(range(3000)), 'deep': {'a': {'b': {'c': [np.arange(11), {'d': np.int16(-3)}]}}}}
+            _roundtrip_json({'kind': 'json_big', 'shard': sh}, ctx, d, big, True, ('json_big',))
         nrand = (16000 if tier == 'quick' else 900000) // ns
         for i in range(nrand):
             kind = ['json_dict', 'json_dict', 'tsv', 'tsv', 'tsv_simple', 'params'][i % 6]
